@@ -1,11 +1,5 @@
-"""Per-property configuration of ./check: which harness runs tie the model to /repo, case budgets."""
-
-PROPS = {
-    "C08": {
-        "runs": [{"name": "C08", "cases": {"quick": 20000, "thorough": 400000}}],
-        "level_text": "Kernel-checked Lean theorems over an executable model of RecvBuf (single-pass insert, read, next) for ALL fragment/read histories, tied to the real qrecovery::recv::RecvBuf by an exact differential run (every observable and the segment boundaries) on generated histories; monitors check the property directly on the real trace.",
-        "level_note": "Trusted: Lean kernel (+propext, Quot.sound, Classical.choice), the hand-written model GmQuic/Model/RecvBuf.lean (validated, not derived), the harness generator coverage, Bytes slicing modelled as List.drop/take.",
-        "trusted_base": ["Bytes/BytesMut slicing (data.advance/split_to/split_off) modelled as List.drop/take"],
-        "assumptions": ["fragments are slices of one source byte string (the property's premise)"],
-    },
-}
+"""Per-property configuration of ./check, loaded from propcfg.d/<Cxx>.json (one file per claimed property):
+runs (harness run name, optional model run name, case budgets per tier), level text, trusted base."""
+import glob, json, os
+_D = os.path.join(os.path.dirname(os.path.abspath(__file__)), "propcfg.d")
+PROPS = {os.path.basename(p)[:-5]: json.load(open(p)) for p in sorted(glob.glob(os.path.join(_D, "C*.json")))}
